@@ -152,6 +152,7 @@ func Transform(pkgs []*packages.Package, excluded func(filename string) bool) *R
 	in.deconvert(pkgs, excluded)
 	in.normalizeWaitGroupGo(pkgs, excluded)
 	in.normalizeErrorsIs(pkgs, excluded)
+	in.normalizeMethodValues(pkgs, excluded)
 	in.normalizeRangeInt(pkgs, excluded)
 	in.normalizeLibraryLoops(pkgs, excluded)
 	in.findClosures(pkgs, excluded)
